@@ -4,38 +4,74 @@ pub use methods::dispatch as pow;
 
 #[dispatch]
 mod methods {
-    use crate::CelValue;
+    use crate::{CelResult, CelValue};
 
-    fn pow(n1: i64, n2: i64) -> i64 {
-        n1.pow(n2 as u32)
+    use internal::{exp_from_f64, range_err};
+
+    mod internal {
+        use crate::{CelError, CelResult};
+
+        pub fn range_err() -> CelError {
+            CelError::value("pow: exponent out of range or integer overflow")
+        }
+
+        pub fn exp_from_f64(e: f64) -> CelResult<u32> {
+            if e.fract() == 0.0 && e >= 0.0 && e <= u32::MAX as f64 {
+                Ok(e as u32)
+            } else {
+                Err(range_err())
+            }
+        }
     }
 
-    fn pow(n1: i64, n2: u64) -> i64 {
-        n1.pow(n2 as u32)
+    fn pow(n1: i64, n2: i64) -> CelResult<i64> {
+        u32::try_from(n2)
+            .ok()
+            .and_then(|e| n1.checked_pow(e))
+            .ok_or_else(range_err)
     }
 
-    fn pow(n1: i64, n2: f64) -> i64 {
-        n1.pow(n2 as u32)
+    fn pow(n1: i64, n2: u64) -> CelResult<i64> {
+        u32::try_from(n2)
+            .ok()
+            .and_then(|e| n1.checked_pow(e))
+            .ok_or_else(range_err)
     }
 
-    fn pow(n1: u64, n2: i64) -> u64 {
-        n1.pow(n2 as u32)
+    fn pow(n1: i64, n2: f64) -> CelResult<i64> {
+        n1.checked_pow(exp_from_f64(n2)?).ok_or_else(range_err)
     }
 
-    fn pow(n1: u64, n2: u64) -> u64 {
-        n1.pow(n2 as u32)
+    fn pow(n1: u64, n2: i64) -> CelResult<u64> {
+        u32::try_from(n2)
+            .ok()
+            .and_then(|e| n1.checked_pow(e))
+            .ok_or_else(range_err)
     }
 
-    fn pow(n1: u64, n2: f64) -> u64 {
-        n1.pow(n2 as u32)
+    fn pow(n1: u64, n2: u64) -> CelResult<u64> {
+        u32::try_from(n2)
+            .ok()
+            .and_then(|e| n1.checked_pow(e))
+            .ok_or_else(range_err)
+    }
+
+    fn pow(n1: u64, n2: f64) -> CelResult<u64> {
+        n1.checked_pow(exp_from_f64(n2)?).ok_or_else(range_err)
     }
 
     fn pow(n1: f64, n2: i64) -> f64 {
-        n1.powi(n2 as i32)
+        match i32::try_from(n2) {
+            Ok(e) => n1.powi(e),
+            Err(_) => n1.powf(n2 as f64),
+        }
     }
 
     fn pow(n1: f64, n2: u64) -> f64 {
-        n1.powi(n2 as i32)
+        match i32::try_from(n2) {
+            Ok(e) => n1.powi(e),
+            Err(_) => n1.powf(n2 as f64),
+        }
     }
 
     fn pow(n1: f64, n2: f64) -> f64 {
